@@ -426,6 +426,48 @@ def o310(ctx):
                             "instead of the particle's own numbers, and the caller's list is altered by an export", site, m)
 
 
+def o312(ctx):
+    """pixel size on import: from the particle table's rlnPixelSize if present, else from the optics table -- with ONE optics group every
+    particle gets that group's rlnImagePixelSize whatever the particle table's group column holds (cryoCAT's own exporter numbers the group
+    1 in the optics table and leaves 0 in the particle table), else 1.0"""
+    q = CLS + ".set_pixel_size"
+    m, fn = ctx.prog.func(q)
+    ctx.touched(q)
+
+    def tables(with_px):
+        cols = ["rlnCoordinateX", "rlnOriginXAngst", "rlnOpticsGroup"] + (["rlnPixelSize"] if with_px else [])
+        rel = Frame({c: sym("rel:" + c) for c in cols}, list(cols), prefix="rel:", name="relion_df")
+        rel.space = Space("particles", how="root")
+        opt = Frame({c: sym("opt:" + c) for c in ("rlnOpticsGroup", "rlnImagePixelSize")}, ["rlnOpticsGroup", "rlnImagePixelSize"], prefix="opt:", name="optics")
+        opt.space = Space("optics", how="root")
+        return rel, opt
+
+    # (a) particle table carries its own pixel size
+    rel, opt = tables(True)
+    me = Obj(CLS, {"pixel_size": K(None), "relion_df": rel, "optics_data": opt})
+    Interp(ctx.prog).run(q, [], {}, self_obj=me)
+    t = to_term(me.attrs["pixel_size"])
+    ctx.count(1, {"rlnPixelSize column": tm.show(t)[:60]})
+    if t != sym("rel:rlnPixelSize"):
+        ctx.finding(q, "rlnPixelSize present", f"the particle table's own rlnPixelSize must be used (got {tm.show(t)[:80]})", fn, m)
+    # (b) one optics group
+    rel, opt = tables(False)
+    me = Obj(CLS, {"pixel_size": K(None), "relion_df": rel, "optics_data": opt})
+    it = Interp(ctx.prog, assume=assume_map({"len(self.optics_data) == 1": True}))
+    it.run(q, [], {}, self_obj=me)
+    t = to_term(me.attrs["pixel_size"])
+    ctx.count(1, {"one optics group": tm.show(t)[:100]})
+    if not tm.has_sym(t, "opt:rlnImagePixelSize") or any(s_.startswith("rel:") for s_ in tm.symbols(t)):
+        ctx.finding(q, "one optics group", "with a single optics group every particle must get that group's rlnImagePixelSize, independent of the "
+                    f"particle table's own group numbers; the code computes {tm.show(t)[:120]}", fn, m)
+    # (c) nothing to go by
+    me = Obj(CLS, {"pixel_size": K(None), "relion_df": tables(False)[0], "optics_data": K(None)})
+    Interp(ctx.prog).run(q, [], {}, self_obj=me)
+    ctx.count(1)
+    if not (is_pyconst(me.attrs["pixel_size"]) and pyval(me.attrs["pixel_size"]) == 1.0):
+        ctx.finding(q, "no pixel size anywhere", "without rlnPixelSize and without an optics table the pixel size defaults to 1.0", fn, m)
+
+
 def o311(ctx):
     """version detection: the block names (and, from 3.1 on, the name columns) decide, whether or not an optics block is present"""
     q = CLS + ".get_version_from_file"
@@ -475,6 +517,7 @@ def o311(ctx):
 
 def _obligations():
     return [
+        Obligation("O3.12", "pixel size on import: own column, else the single optics group's value for every particle, else 1.0", o312, floor=3),
         Obligation("O3.11", "version detection from block names / name columns, with and without an optics block", o311, floor=11),
         Obligation("O3.10", "write_out leaves the exported list unchanged (all versions, optics on/off)", o310, floor=6),
         Obligation("O3.9", "import: half-set renumbering automaton -- 1 <-> odd, 2 <-> even, strictly increasing (finite abstraction, exhaustive)", o39, floor=12),
